@@ -53,7 +53,7 @@ def fixpoint(ctx, name, spellings, speclists):
 def rejected_updates(ctx):
     quick = ctx.tier == 'quick'
     run_config(ctx, 'rejects', ['none', 'y2020', 'y0', 'sybad', 'm13', 'sm13', 'sdbad', 's4', 'flt', 'm2020_1'],
-               ['x2', 'y5', 'xbad0', 'x4ybad', 'bident'], 2 if quick else 3)
+               ['x2', 'y5', 'xbad0', 'x4ybad', 'bident', 'chfstr'], 2 if quick else 3)
 
 
 def replay(ctx, rp):
